@@ -14,6 +14,9 @@ VFILES = ["theories/Config.v", "theories/Cli.v", "theories/CliProof.v"]
 PROGRAMS = [
     "x = 0\nwhile x < 3:\n    x += 1\n    if x == 2:\n        continue\n    print(x)\nelse:\n    print('done')\n",
     "def f(a, b=2):\n    for i in range(a):\n        if i == b:\n            return i\n    return -1\nprint(f(5), f(1))\n",
+    # the FILE is what is converted, character for character: tab characters inside string literals and as indentation, a
+    # non-ASCII letter, no newline at the end of the file
+    "row = ['a', 'b', 'c']\nline = '\t'.join(row)\nif row:\n\tdoc = '''first\n\tindented\ttabs'''\n\tprint(line, len(line), repr(doc))\nname = 'größe'\nprint(name, len('a\\rb'))",
 ]
 NAMES = ["unparser", "expr_wrapper", "if_style"]
 OPTS = {"unparser": ["ast.unparse", "oneliner"], "expr_wrapper": ["list", "chain_call"],
